@@ -309,3 +309,21 @@ let run (casefile : string) (obsfile : string) =
         (try Hashtbl.find fails p with Not_found -> 0))
     [ "C06"; "C09"; "C10"; "C11"; "MISMATCH" ];
   Printf.printf "JUDGE-CASES %d\n" !n
+
+(* print the model's result tokens for API cases (used by the CLI check) *)
+let run_model_only (casefile : string) =
+  let ic = open_in casefile in
+  (try
+     while true do
+       let line = input_line ic in
+       if line <> "" && line.[0] <> '#' then begin
+         let c = parse_case line in
+         let p = { queue = c.stale; reactions = c.react; wfaults = c.wf; ffaults = c.ff; noprog = c.np;
+                   written = []; nwrites = O; nreads = O; nflushes = O; reads_at_end = O; delivered = [] } in
+         let cf = { cfg_debug = (c.cfg land 1 <> 0); cfg_iolog = (c.cfg land 2 <> 0) } in
+         let st = { vd = vd_new p; api = None } in
+         let rs = List.map (model_op cf st) (tag_ops c) in
+         Printf.printf "%s R=%s W=%s\n" c.id (String.concat ";" rs) (String.concat "," (List.map hex_of_bytes st.vd.pt.written))
+       end
+     done
+   with End_of_file -> ())
